@@ -374,6 +374,47 @@ def run(chk):
            fi=v.fi)
   for fq, typ, core, label in MUST_RAISE:
     must_raise(chk, 'C19-R1', fq, typ, core, label)
+  # the range-restriction check reports InternalVariables() = AllVariables() -
+  # ExtractedVariables(): AllVariables must see the variables of every part of
+  # the structure, and the collector must descend below the top level of the
+  # select (where the only exemption - a column that happens to be called
+  # 'variable' - applies)
+  av = repo.func('rule_translate.RuleStructure.AllVariables')
+  parts = set()
+  for c in walk_local(av.node):
+    if isinstance(c, ast.Call) and call_tail(c) == 'AllMentionedVariables' and c.args:
+      d = dotted(c.args[0]) or ''
+      if d.startswith('self.'):
+        parts.add(d[5:])
+  need = {'select', 'vars_unification', 'constraints', 'unnestings'}
+  chk.ob('C19-R1', need <= parts, None,
+         'AllVariables() collects the variables of select, unifications, constraints and unnestings',
+         'variables of %s are not collected: an unbound variable that occurs only '
+         'there is never reported' % sorted(need - parts), fi=av)
+  amv = repo.func('rule_translate.AllMentionedVariables')
+  flag = 'this_is_select' if 'this_is_select' in amv.params else None
+  if flag is None:
+    raise AnalysisError('AllMentionedVariables: select flag parameter not found')
+  fpos = amv.params.index(flag)
+  deep_uses = []
+  for sub in amv.nested.values():
+    for x in ast.walk(sub.node):
+      if isinstance(x, ast.Name) and x.id == flag:
+        deep_uses.append(x)
+  for c in walk_local(amv.node):
+    if isinstance(c, ast.Call) and call_tail(c) == 'AllMentionedVariables':
+      passed = [k.value for k in c.keywords if k.arg == flag]
+      if len(c.args) > fpos:
+        passed.append(c.args[fpos])
+      for v in passed:
+        if not (isinstance(v, ast.Constant) and v.value is False):
+          deep_uses.append(v)
+  chk.ob('C19-R1', not deep_uses, None,
+         'the select exemption of AllMentionedVariables applies at the top level only',
+         'the flag that exempts a column named `variable` is also in force below '
+         'the top level of the select (%s): variables that occur only in the head '
+         'are not collected, so a head-only unbound variable escapes the '
+         'range-restriction diagnostic' % (norm(deep_uses[0], 40) if deep_uses else ''), fi=amv)
   # Traverse reports unmatched closers
   tv = FnView(repo, 'parse.Traverse')
   y = [x for x in walk_local(tv.fi.node) if isinstance(x, ast.Yield) and
